@@ -237,6 +237,35 @@ def check_case(case, ctx):
     for job in early.jobs:
         for o in job[:3]:
             pool.append(("I-hashed-early-op", o))
+    # user subclasses (the docstrings recommend subclassing to add attributes)
+    class MyInstance(JobShopInstance):
+        pass
+
+    class DueDateOperation(_Op):
+        __slots__ = ("due_date",)
+
+        def __init__(self, machines, duration, due_date=0):
+            super().__init__(machines, duration)
+            self.due_date = due_date
+
+    pool.append(("I-subclass", MyInstance.from_matrices(**base.to_dict())))
+    sub_jobs = [
+        [DueDateOperation(list(ms), dd, due_date=7) for ms, dd in zip(row_m, row_d)]
+        for row_m, row_d in zip(inst["machines"], inst["durations"])
+    ]
+    sub_inst = JobShopInstance(sub_jobs, name=inst["name"])
+    pool.append(("I-slotted-ops", sub_inst))
+    longer = [
+        [DueDateOperation(list(ms), dd + 1, due_date=7) for ms, dd in zip(row_m, row_d)]
+        for row_m, row_d in zip(inst["machines"], inst["durations"])
+    ]
+    pool.append(("I-slotted-ops-longer", JobShopInstance(longer, name=inst["name"])))
+    for o in sub_inst.jobs[0][:2]:
+        pool.append(("I-slotted-ops-op", o))
+    # operations never attached to an instance
+    pool.append(("loose-op-a", _Op([0], 3)))
+    pool.append(("loose-op-b", _Op([0], 3)))
+    pool.append(("loose-op-c", _Op([0], 4)))
     pool += [("None", None), ("int", 3), ("tuple", (1, 2))]
     keys = [(strict(o), relaxed(o)) for (_l, o) in pool]
     n = len(pool)
